@@ -738,13 +738,13 @@ class Engine:
             cell = ("L", fr.fid, l)
             old = st.store.get(cell)
             if old is not None and l in borrowed or (old is not None and l in written and self._live_in(body, blocks, header, l)):
-                st.store[cell] = ("loop", (body["id"], header), ("local", l, body["locals"][l]["ty"]))
+                st.store[cell] = ("loop", (body["id"], header), ("local", l, body["locals"][l]["ty"]), old)
         for (cell, path) in sorted(locs, key=repr):
             if cell[0] == "L" and cell[1] == fr.fid and cell[2] in (written | borrowed):
                 continue
             old = self.read_loc(st, cell, path)
             st.store[cell] = self.write_val(st, st.store.get(cell) or self.cell_initial(cell), path,
-                                            ("loop", (body["id"], header), ("loc", cell, path)))
+                                            ("loop", (body["id"], header), ("loc", cell, path), old))
 
     def _collect_mut_refs(self, v, out, depth=0):
         if not isinstance(v, tuple) or depth > 6:
@@ -1180,7 +1180,7 @@ def show(t, depth=0):
     if k == "after":
         return "after(%s, arg%d)" % (show(t[1], d), t[2])
     if k == "loop":
-        return "loopvar(%s)" % (t[2],)
+        return "loopvar(%s)" % (t[2][1] if t[2][0] == "local" else show_cell(t[2][1]),)
     if k == "len":
         return "len(%s)" % show(t[1], d)
     if k == "max":
